@@ -10,7 +10,8 @@ VARIABLES store, alias, snap, hist
 vars == <<store, alias, snap, hist>>
 
 K0 == NKey("0", 0)   K1 == NKey("1", 1)   K2 == NKey("2", 2)   Kk == SKey("k", 1)   KL == NKey("-1", -1)
-Keys == {K0, K1, K2, Kk}
+Knil == SKey("$nil", 3000)     \* the $nil key of a map (its value sits outside the hash trie)
+Keys == {K0, K1, K2, Kk, Knil}
 Vars == {"x", "y"}
 Other(x) == IF x = "x" THEN "y" ELSE "x"
 
@@ -24,7 +25,9 @@ Inits == <<
   [x |-> MapOf(<<>>, <<>>),                                                    y |-> List(<<>>)],
   \* a 3-key map (a trie node with spare capacity after its growth) and the same map nested in a list:
   \* the steps with the keys k, 0, 1, 2 ADD keys to it
-  [x |-> M3,                                                                   y |-> List(<<M3, A(7)>>)] >>
+  [x |-> M3,                                                                   y |-> List(<<M3, A(7)>>)],
+  \* maps that already hold the $nil key, at the top and nested: re-assoc / del of x[$nil], y[0][$nil]
+  [x |-> MapOf(<<Kk, Knil>>, <<A(1), A(2)>>),                                  y |-> List(<<MapOf(<<Knil>>, <<A(3)>>), A(4)>>)] >>
 
 \* paths worth trying on value v: every key at the top; below a valid first key every key; below an
 \* invalid one a single representative; one valid path of length 3 if there is one
